@@ -64,6 +64,8 @@ Back ends
         the lookup table is "0123456789ABCDEF".
  N1-snprintf-length-bounded  double2string: the value returned by snprintf is used as index / count only where a test
         against the buffer size dominates the use.   FIRES on today's tree under NDEBUG (see KNOWN).
+ N2-zero-trim-needs-fraction double2string: the loop that strips trailing '0' characters runs only under a condition that the text has a
+        fractional part (mentions the precision or a '.').   FIRES on today's tree (see KNOWN).
 
 Not decided (left to other technique families): numeric exactness of snprintf("%.*f") and of the zero trimming as values;
 that an independent WKB/WKT/GeoJSON decoder of a real library accepts the bytes (the reference grammar in this file is the
@@ -105,13 +107,18 @@ KNOWN = [
     ('E4-first-element-never-skipped', 'osmium::geom::GeometryFactory::add_points#sentinel',
      'Same sentinel in the ring loop of create_multipolygon: a ring whose first node reference has an undefined location is exported '
      'without that node and without an error.'),
-    ('N1-snprintf-length-bounded', 'osmium::util::double2string#snprintf-result',
+    ('N1-snprintf-length-bounded', 'osmium::double2string#snprintf-result',
      'double2string formats into char buffer[20] and uses the snprintf result `len` as index and copy count; the only test is an '
      'assert.  With NDEBUG, double2string(out, -20037508.34, 10) (a Web-Mercator x at lon -180 with precision 10, i.e. '
      'WKTFactory<MercatorProjection>{10}) needs 20 characters + NUL: snprintf returns 20, the text is truncated, buffer[19] is the NUL '
      'and 20 bytes including the NUL are appended ("-20037508.340000000\\0" instead of "-20037508.34").  Precision 17 returns 27: '
      'buffer[26] and copy_n(buffer, 27) read past the 20 byte stack buffer.  Property: numbers exact for every magnitude a projection '
      'can produce at precision 0..17.'),
+    ('N2-zero-trim-needs-fraction', 'osmium::double2string#zero-trim-only-after-decimal-point',
+     '`while (buffer[len - 1] == \'0\') --len;` runs whether or not the text contains a decimal point.  With precision 0 snprintf("%.0f") '
+     'writes no \'.\', so the zeros stripped are integer digits: double2string(s, 10.0, 0) == "1", 100.0 -> "1", 120.0 -> "12"; '
+     'WKTFactory<>{0}.create_point(Location{10.0, 20.0}) == "POINT(1 2)"; for 0.0 the loop reads buffer[-1].  Property: numbers exact at '
+     'precision 0..17.'),
 ]
 
 GF = 'osmium::geom::GeometryFactory'
@@ -242,11 +249,19 @@ class FillShape:
         self.step_ids = {n['id'] for n in self.step_nodes}
         self.body_entry = fn.blocks[self.header]['succs'][0]
 
-    def cur_loc(self, nid):
-        """peeled expression is <current element>.location()"""
+    def cur_loc(self, nid, _depth=0):
+        """peeled expression is <current element>.location(), or a loop-local constant copy of it"""
         fn = self.fn
         n = pn(fn, nid)
-        if n is None or n.get('k') != 'call' or n.get('q') != NODEREF_LOCATION or n.get('recv') is None:
+        if n is None:
+            return False
+        if n.get('k') == 'var' and n.get('vk') == 'local' and _depth < 3:
+            dn, dv = decl_of(fn, n['d'])
+            if dv is not None and isinstance(dv.get('init'), int) and self.loop is not None and fn.in_range(dn['id'], self.loop['b'], self.loop['e']) \
+                    and not any(w[1] == ('var', n['d']) for w in writes(fn)) and not address_taken(fn, ('var', n['d'])):
+                return self.cur_loc(dv['init'], _depth + 1)
+            return False
+        if n.get('k') != 'call' or n.get('q') != NODEREF_LOCATION or n.get('recv') is None:
             return False
         rv = fn.root_var(n['recv'])
         return rv is not None and rv[0] == 'var' and rv[1] in self.elem_roots
@@ -371,9 +386,21 @@ def _fill_one(fb, R, fn, F, S, name, unique, emit_name, q):
             R.bad('E3-skip-only-consecutive-duplicates', key, site,
                   '%s must drop consecutive duplicates: no emit is guarded by a comparison `last != <current>.location()` of osmium::Location values' % name)
         else:
-            ok = sentinel is not None and dup[3] == sentinel
-            R.check(ok, 'E3-skip-only-consecutive-duplicates', q + '#compares-with-last-emitted', fn.loc(dup[2]),
-                    'the duplicate test compares the current location with a local that is not the one holding the location emitted last')
+            # the local must hold the location emitted last: all its writes are `L = <current>.location()` inside the loop and on
+            # every path the number of such writes equals the number of emits when the iteration ends
+            L = dup[3]
+            lw = [w for w in writes(fn) if w[1] == ('var', L)]
+            okw = bool(lw) and all(w[2] in ('opassign', 'assign') and S.cur_loc(w[3]) and fn.in_range(w[0]['id'], S.loop['b'], S.loop['e']) for w in lw) \
+                and not address_taken(fn, ('var', L))
+            if okw:
+                lids = {w[0]['id'] for w in lw}
+                st = delta_states(fn, lambda n: (1 if n['id'] in emit_ids else 0) - (1 if n['id'] in lids else 0))
+                ends = list(S.step_ids) + [n['id'] for n in fn.all_nodes() if n.get('k') == 'return']
+                okw = all(st.get(e) == frozenset([0]) for e in ends if e in st)
+            R.check(okw, 'E3-skip-only-consecutive-duplicates', q + '#compares-with-last-emitted', fn.loc(dup[2]),
+                    'the duplicate test compares the current location with a local that does not hold exactly the location emitted last '
+                    '(it must be assigned the current location on the paths that emit, and only there)')
+            sentinel = L if okw else None
 
     def edge_ok(b, idx, s):
         return not (dup is not None and b == dup[0] and idx == dup[1])
@@ -392,15 +419,17 @@ def _fill_one(fb, R, fn, F, S, name, unique, emit_name, q):
     if unique and dup is not None and sentinel is not None:
         dn, dv = decl_of(fn, sentinel)
         init = pn(fn, dv.get('init')) if dv is not None and isinstance(dv.get('init'), int) else None
-        is_default_loc = init is not None and init.get('k') == 'construct' and init.get('q') == LOC + '::(ctor)' and not init.get('args')
+        # a sentinel built from nothing / from constants is itself a possible element value
+        is_default_loc = init is not None and init.get('k') == 'construct' and init.get('q') == LOC + '::(ctor)' and \
+            all((pn(fn, a) or {}).get('k') == 'lit' or 'cv' in (pn(fn, a) or {}) for a in init.get('args', []))
         first_guard = False
         for (c, sense, blk) in guards_of(fn, dup[2]):
             if fn.in_range(c, S.loop['b'], S.loop['e']) and blk != S.header:
                 first_guard = True      # the comparison itself is only reached under a further loop-local condition
         R.check(not is_default_loc or first_guard, 'E4-first-element-never-skipped', q + '#sentinel', fn.loc(dn['id']) if dn else site,
-                'the duplicate filter starts from a default-constructed (undefined) osmium::Location: a first element whose location is '
-                'undefined compares equal to it and is dropped silently instead of raising invalid_location '
-                '(e.g. locations [undefined, A, B] yield the geometry A,B)')
+                'the duplicate filter starts from a constant osmium::Location (%s; default = undefined): a first element with exactly that '
+                'location compares equal to it and is dropped silently -- for the undefined location instead of raising invalid_location '
+                '(e.g. locations [undefined, A, B] yield the geometry A,B)' % (fn.expr(dv['init']) if dv is not None and isinstance(dv.get('init'), int) else '?'))
 
 
 # ================================================================================================ wrappers
@@ -994,8 +1023,1296 @@ def threshold_rules(fb, R):
             _threshold_guard(fb, R, fn, f['id'], counter, 1, 'G1-degenerate-threshold', key, 'an area without rings is invalid')
 
 
-# ================================================================================================ run
+# ================================================================================================ projections / accessors
 
+COORD = 'osmium::geom::Coordinates'
+LOC_READERS = ('lon', 'lat', 'lon_without_check', 'lat_without_check', 'x', 'y')
+
+
+def _loc_reads(fn, nid, pdecl):
+    """names of osmium::Location accessors called on parameter pdecl inside the subtree of nid."""
+    out = []
+    for x in fn.subtree(nid):
+        n = fn.nodes[x]
+        if n.get('k') == 'call' and n.get('q', '').startswith(LOC + '::') and n.get('recv') is not None \
+                and local_or_param(fn, n['recv']) == pdecl:
+            out.append(short(n['q']))
+    return out
+
+
+def accessor_rules(fb, R):
+    projs = set()
+    for f in fb.functions:
+        if f.cls == GF and f.cls_targs and len(f.cls_targs) >= 2:
+            projs.add(f.cls_targs[1])
+    if not projs:
+        R.broken('no GeometryFactory instantiation found (projection types unknown)')
+    for p in sorted(projs):
+        q = p + '::operator()'
+        key = q + '#x<-lon,y<-lat'
+        fns = [f for f in fb.fns(q) if f.params and f.params[0]['tC'].replace('const ', '').rstrip(' &') == LOC]
+        if not fns:
+            R.bad('P1-checked-accessors', key, q, '%s(osmium::Location) not found' % q)
+        for fn in fns:
+            pd = fn.params[0]['d']
+            rets = [n for n in fn.all_nodes() if n.get('k') == 'return']
+            ok, msg = bool(rets), 'no return'
+            for r in rets:
+                c = pn(fn, r.get('sub'))
+                while c is not None and c.get('k') == 'construct' and c.get('q') == COORD + '::(ctor)' and len(c.get('args', [])) == 1:
+                    c = pn(fn, c['args'][0])
+                if c is None or c.get('k') != 'construct' or c.get('q') != COORD + '::(ctor)' or len(c.get('args', [])) != 2:
+                    ok, msg = False, 'does not return Coordinates{x, y}'
+                    break
+                rx, ry = _loc_reads(fn, c['args'][0], pd), _loc_reads(fn, c['args'][1], pd)
+                if rx != ['lon'] or ry != ['lat']:
+                    ok, msg = False, 'x must be computed from location.lon() only and y from location.lat() only (the checked accessors); found x<-%s, y<-%s' % (rx, ry)
+            allreads = [short(n['q']) for n in fn.all_nodes() if n.get('k') == 'call' and n.get('q', '').startswith(LOC + '::')
+                        and short(n['q']) in LOC_READERS]
+            if ok and sorted(allreads) != ['lat', 'lon']:
+                ok, msg = False, 'reads the location through %s' % allreads
+            R.check(ok, 'P1-checked-accessors', key, fn.site, '%s: %s' % (q, msg))
+    # Coordinates constructors
+    q = COORD + '::(ctor)'
+    rec = fb.record(COORD)
+    fx, fy = (rec.fields[0]['name'], rec.fields[1]['name']) if rec is not None and len(rec.fields) >= 2 else ('x', 'y')
+    seen = set()
+    for fn in fb.fns(q):
+        inits = {n['name']: n for n in fn.all_nodes() if n.get('k') == 'init' and 'name' in n}
+        if len(fn.params) == 1 and LOC in fn.params[0]['tC']:
+            pd = fn.params[0]['d']
+            ok = fx in inits and fy in inits and _loc_reads(fn, inits[fx]['init'], pd) == ['lon'] and _loc_reads(fn, inits[fy]['init'], pd) == ['lat']
+            R.check(ok, 'P1-checked-accessors', q + '#from-Location', fn.site,
+                    'Coordinates(const Location&) must initialise x from location.lon() and y from location.lat() (checked accessors)')
+            seen.add('loc')
+        elif len(fn.params) == 2:
+            ok = fx in inits and fy in inits and local_or_param(fn, inits[fx]['init']) == fn.params[0]['d'] \
+                and local_or_param(fn, inits[fy]['init']) == fn.params[1]['d']
+            R.check(ok, 'P1-checked-accessors', q + '#from-doubles', fn.site, 'Coordinates(cx, cy) must initialise x from cx and y from cy')
+            seen.add('dbl')
+    if 'loc' not in seen:
+        R.bad('P1-checked-accessors', q + '#from-Location', COORD, 'constructor Coordinates(const Location&) not found')
+    if 'dbl' not in seen:
+        R.bad('P1-checked-accessors', q + '#from-doubles', COORD, 'constructor Coordinates(double, double) not found')
+    # Location::lon / lat
+    lrec = fb.record(LOC)
+    for i, nm in enumerate(('lon', 'lat')):
+        q = '%s::%s' % (LOC, nm)
+        key = q + '#throws-if-invalid'
+        fns = fb.fns(q)
+        if not fns:
+            R.bad('P1-checked-accessors', key, q, '%s not found' % q)
+        for fn in fns:
+            rets = [n for n in fn.all_nodes() if n.get('k') == 'return']
+            ok, msg = bool(rets), 'no return'
+            for r in rets:
+                gs = guards_of(fn, r['id'])
+                if not any(s and (pn(fn, c) or {}).get('q') == LOC + '::valid' for (c, s, _b) in gs):
+                    ok, msg = False, 'a return is reachable without valid() having been true'
+                fld = lrec.fields[i]['name'] if lrec is not None and len(lrec.fields) >= 2 else None
+                fields = {fn.nodes[x]['name'] for x in fn.subtree(r['id']) if fn.nodes[x].get('k') == 'member' and fn.nodes[x].get('field')}
+                if ok and fld is not None and fields != {fld}:
+                    ok, msg = False, 'returns a value computed from %s, expected %s' % (sorted(fields), fld)
+            thr = [n for n in fn.all_nodes() if n.get('k') == 'throw' and 'invalid_location' in (n.get('tt') or '')]
+            if ok and not thr:
+                ok, msg = False, 'does not throw osmium::invalid_location'
+            if ok:
+                tids = {n['id'] for n in thr}
+                rids = {n['id'] for n in rets}
+                w = path_search(fn, fn.entry, exit_t, lambda e: e in tids or e in rids, from_block_start=True)
+                if w is not None:
+                    ok, msg = False, 'a path leaves the function without returning the coordinate or throwing'
+            R.check(ok, 'P1-checked-accessors', key, fn.site, '%s: %s' % (q, msg))
+
+
+# ================================================================================================ WKB back end
+
+WKB = 'osmium::geom::detail::WKBFactoryImpl'
+WKT = 'osmium::geom::detail::WKTFactoryImpl'
+GEOJSON = 'osmium::geom::detail::GeoJSONFactoryImpl'
+STR_PUSH = 'osmium::geom::detail::str_push'
+BS = 'std::basic_string::'
+# level, start, finish, child events that each count one element of the level
+LEVELS = [
+    ('linestring', 'linestring_start', 'linestring_finish', ['linestring_add_location']),
+    ('polygon', 'polygon_start', 'polygon_finish', ['polygon_add_location']),
+    ('multipolygon', 'multipolygon_start', 'multipolygon_finish', ['multipolygon_polygon_start']),
+    ('multipolygon_polygon', 'multipolygon_polygon_start', 'multipolygon_polygon_finish',
+     ['multipolygon_outer_ring_start', 'multipolygon_inner_ring_start']),
+    ('multipolygon_outer_ring', 'multipolygon_outer_ring_start', 'multipolygon_outer_ring_finish', ['multipolygon_add_location']),
+    ('multipolygon_inner_ring', 'multipolygon_inner_ring_start', 'multipolygon_inner_ring_finish', ['multipolygon_add_location']),
+]
+NESTED = ['multipolygon', 'multipolygon_polygon', 'multipolygon_outer_ring', 'multipolygon_inner_ring']
+OGC_TYPES = {'wkbPoint': 1, 'wkbLineString': 2, 'wkbPolygon': 3, 'wkbMultiPoint': 4, 'wkbMultiLineString': 5, 'wkbMultiPolygon': 6,
+             'wkbGeometryCollection': 7, 'wkbSRID': 0x20000000}
+WKB_HEADER_USERS = {'make_point': ('wkbPoint', 0), 'linestring_start': ('wkbLineString', 1), 'polygon_start': ('wkbPolygon', 1),
+                    'multipolygon_start': ('wkbMultiPolygon', 1), 'multipolygon_polygon_start': ('wkbPolygon', 1)}
+
+
+def _method(fb, cls, name):
+    fns = [f for f in fb.fns('%s::%s' % (cls, name)) if f.has_cfg]
+    return fns[0] if fns else None
+
+
+def _buffer_field(fb, cls):
+    """The std::string member the back end accumulates into: the one linestring_add_location appends to."""
+    fn = _method(fb, cls, 'linestring_add_location')
+    if fn is None:
+        return None
+    cands = set()
+    for n in fn.all_nodes():
+        if n.get('k') != 'call':
+            continue
+        f = recv_field(fn, n)
+        if f is not None and n.get('q', '').startswith(BS):
+            cands.add(f)
+        for a in n.get('args', []):
+            f = this_field(fn, a)
+            if f is not None and (fn.nodes.get(peel(fn, a), {}).get('t') or '').startswith(('std::string', 'std::basic_string')):
+                cands.add(f)
+    return cands.pop() if len(cands) == 1 else None
+
+
+def _single_path_elems(fn):
+    ps = normal_paths(fn)
+    if not ps or len(ps) != 1:
+        return None
+    return path_elems(fn, ps[0])
+
+
+def _is_u32_zero_push(fn, n, data):
+    return n.get('k') == 'call' and n.get('q') == STR_PUSH and len(n.get('args', [])) == 2 and this_field(fn, n['args'][0]) == data \
+        and (fn.nodes.get(peel(fn, n['args'][1]), {}).get('t') in ('unsigned int', 'uint32_t')) and fn.const_value(n['args'][1]) == 0 \
+        and (pn(fn, n['args'][1], explicit_noop=False) or {}).get('k') in ('cast', 'lit')
+
+
+def _header_call(fn, nid):
+    n = pn(fn, nid)
+    if n is not None and n.get('k') == 'call' and n.get('q') == WKB + '::header':
+        return n
+    return None
+
+
+def _start_captures(fn, data):
+    """offset members recorded by a start method: [(field, how, node)] ; how = 'header' | 'size+zero'."""
+    elems = _single_path_elems(fn)
+    if elems is None:
+        return None
+    caps = []
+    for i, e in enumerate(elems):
+        n = fn.nodes[e]
+        if n.get('k') != 'assign' or n.get('op') != '=':
+            continue
+        f = this_field(fn, n['lhs'])
+        if f is None:
+            continue
+        h = _header_call(fn, n['rhs'])
+        if h is not None and len(h.get('args', [])) == 3 and this_field(fn, h['args'][0]) == data and fn.const_value(h['args'][2]) == 1:
+            caps.append((f, 'header', n))
+            continue
+        r = pn(fn, n['rhs'])
+        if r is not None and r.get('k') == 'call' and r.get('q') == BS + 'size' and recv_field(fn, r) == data:
+            # next mutation of the buffer must be the 4-byte zero placeholder
+            nxt = None
+            for e2 in elems[i + 1:]:
+                m = fn.nodes[e2]
+                if m.get('k') == 'call' and (m.get('q') == STR_PUSH or m.get('q') == WKB + '::header' or
+                                             (m.get('q', '').startswith(BS) and recv_field(fn, m) == data and short(m['q']) not in ('size', 'empty', 'length'))):
+                    nxt = m
+                    break
+            if nxt is not None and _is_u32_zero_push(fn, nxt, data):
+                caps.append((f, 'size+zero', n))
+            else:
+                caps.append((f, 'size-without-placeholder', n))
+    return caps
+
+
+def _set_size_calls(fn):
+    return [n for n in fn.all_nodes() if n.get('k') == 'call' and n.get('q') == WKB + '::set_size']
+
+
+def wkb_rules(fb, R):
+    rec = fb.record(WKB)
+    if rec is None:
+        R.broken('record %s not found' % WKB)
+        return
+    data = _buffer_field(fb, WKB)
+    if data is None:
+        R.broken('%s: cannot identify the accumulation buffer member' % WKB)
+        return
+    methods = {f.name: f for f in fb.functions if f.cls == WKB and f.has_cfg and not f.is_lambda}
+    field_writers = {}
+    for mname, fn in methods.items():
+        if fn.kind in ('ctor', 'dtor'):
+            continue
+        for (n, key, kind, rhs) in writes(fn):
+            if key[0] == 'field':
+                field_writers.setdefault(key[1], []).append((mname, n, kind, rhs))
+    offsets, counters = {}, {}
+    for (level, sname, fname, children) in LEVELS:
+        k1 = '%s#%s' % (WKB, level)
+        S, Fn_ = methods.get(sname), methods.get(fname)
+        if S is None or Fn_ is None:
+            R.bad('B1-backpatch-offset-pairing', k1, '%s:%d' % (rec.file, rec.line), 'methods %s / %s not found' % (sname, fname))
+            continue
+        caps = _start_captures(S, data)
+        if caps is None:
+            R.broken('%s::%s: not a straight-line body' % (WKB, sname))
+            continue
+        good = [c for c in caps if c[1] in ('header', 'size+zero')]
+        calls = _set_size_calls(Fn_)
+        ids = {c['id'] for c in calls}
+        msg = None
+        if len(caps) != len(good):
+            msg = '%s stores %s.size() in %s but the next thing appended is not the 4-byte zero count placeholder' % (sname, data, [c[0] for c in caps if c not in good])
+        elif len(good) != 1:
+            msg = '%s must record the position of exactly one count placeholder in a member (found %s)' % (sname, [c[0] for c in good])
+        elif len(calls) != 1:
+            msg = '%s must call set_size exactly once (found %d calls): the count written by %s is never / repeatedly patched' % (fname, len(calls), sname)
+        else:
+            w = path_search(Fn_, Fn_.entry, exit_t, lambda e: e in ids, from_block_start=True)
+            a = calls[0].get('args', [])
+            of = this_field(Fn_, a[0]) if len(a) == 2 else None
+            if w is not None:
+                msg = '%s can return without calling set_size: %s' % (fname, describe_path(Fn_, w))
+            elif of != good[0][0]:
+                msg = ('%s patches the count at %s but %s recorded the placeholder position in %s: the count of another element is '
+                       'overwritten and this one stays 0' % (fname, of or Fn_.expr(a[0]) if a else '?', sname, good[0][0]))
+            else:
+                offsets[level] = of
+        R.check(msg is None, 'B1-backpatch-offset-pairing', k1, Fn_.loc(calls[0]['id']) if calls else Fn_.site, msg or '',
+                detail='%s: %s <- %s ; %s: set_size(%s, ...)' % (sname, good[0][0] if good else '?', good[0][1] if good else '?', fname, offsets.get(level)))
+        if len(calls) != 1 or len(calls[0].get('args', [])) != 2:
+            continue
+        # ---- B2 counter
+        cnt = calls[0]['args'][1]
+        cd = local_or_param(Fn_, cnt)
+        cf = this_field(Fn_, cnt)
+        msg = None
+        if cd is not None:
+            if param_index(Fn_, cd) != 0 or len(Fn_.params) != 1:
+                msg = '%s passes local %s as the count, not its parameter' % (fname, Fn_.expr(cnt))
+            elif any(w_[1] == ('var', cd) for w_ in writes(Fn_)):
+                msg = '%s modifies its count parameter before patching' % fname
+        elif cf is not None:
+            counters[level] = cf
+            resets = [w_ for w_ in field_writers.get(cf, []) if w_[0] == sname]
+            if not (len(resets) == 1 and resets[0][2] == 'assign' and S.const_value(resets[0][3]) == 0):
+                msg = '%s must reset the element counter %s to 0 (exactly once)' % (sname, cf)
+            for ch in children:
+                C = methods.get(ch)
+                if msg is not None:
+                    break
+                if C is None:
+                    msg = 'child event %s not found' % ch
+                    break
+                incs = [w_ for w_ in field_writers.get(cf, []) if w_[0] == ch]
+                if not (len(incs) == 1 and (incs[0][2] == 'inc' or (incs[0][2] == 'compound' and incs[0][1].get('op') == '+=' and C.const_value(incs[0][3]) == 1))):
+                    msg = '%s must increment %s exactly once (it is the count that %s writes into the %s header)' % (ch, cf, fname, level)
+                else:
+                    iid = incs[0][1]['id']
+                    w = path_search(C, C.entry, exit_t, lambda e: e == iid, from_block_start=True)
+                    if w is not None:
+                        msg = '%s can return without incrementing %s' % (ch, cf)
+            if msg is None:
+                allowed = set()
+                for (lv, s2, f2, ch2) in LEVELS:
+                    c2 = _set_size_calls(methods[f2]) if f2 in methods else []
+                    if len(c2) == 1 and len(c2[0].get('args', [])) == 2 and this_field(methods[f2], c2[0]['args'][1]) == cf:
+                        allowed |= {s2} | set(ch2)
+                others = sorted({w_[0] for w_ in field_writers.get(cf, [])} - allowed)
+                if others:
+                    msg = 'element counter %s is also written by %s' % (cf, others)
+        else:
+            msg = 'the count passed to set_size in %s is neither the parameter nor a member: %s' % (fname, Fn_.expr(cnt))
+        R.check(msg is None, 'B2-backpatch-counter', k1, Fn_.loc(calls[0]['id']), msg or '',
+                detail='count = %s' % Fn_.expr(cnt))
+    # ---- B3 nested slots
+    offs = [(lv, offsets[lv]) for lv in NESTED if lv in offsets]
+    clash = [(a, b) for (a, b) in itertools.combinations(offs, 2) if a[1] == b[1] and not {a[0], b[0]} == {'multipolygon_outer_ring', 'multipolygon_inner_ring'}]
+    R.check(not clash and len(offs) == 4, 'B3-nested-slots-distinct', WKB + '#nested-offsets', '%s:%d' % (rec.file, rec.line),
+            'levels that are open at the same time share an offset member (the inner start overwrites the outer position): %s' % clash
+            if clash else 'offset members of the nested levels could not all be determined')
+    cnts = [(lv, counters[lv]) for lv in NESTED if lv in counters]
+    clash = [(a, b) for (a, b) in itertools.combinations(cnts, 2) if a[1] == b[1] and not {a[0], b[0]} == {'multipolygon_outer_ring', 'multipolygon_inner_ring'}]
+    R.check(not clash and len(cnts) == 4, 'B3-nested-slots-distinct', WKB + '#nested-counters', '%s:%d' % (rec.file, rec.line),
+            'levels that are open at the same time share a counter member: %s' % clash if clash else 'counter members of the nested levels could not all be determined')
+
+    _wkb_set_size(fb, R, methods, data)
+    _wkb_header(fb, R, methods, data)
+    _wkb_axis(fb, R, methods, data)
+    _wkb_handover(fb, R, methods, data)
+
+
+def _decide_guard(fb, R, fn, target, sym_decl, dom, want, rule, key, what, extra=()):
+    """`target` executes exactly in the worlds where want(world) holds; the guards may mention only the symbol `n` (sym_decl)."""
+    rel = [(c, s, b) for (c, s, b) in guards_of(fn, target) if fn.blocks[b].get('cond') == c
+           and any(local_or_param(fn, x) == sym_decl for x in fn.subtree(c) if fn.nodes[x].get('k') == 'var')]
+
+    def atoms(f, n):
+        if n.get('k') == 'var' and n.get('d') == sym_decl:
+            return ('n', dom)
+        return None
+    try:
+        progs = [(OT.compile_expression(fb, fn, c, atoms), s) for (c, s, _b) in rel]
+    except OT.Inexact as e:
+        R.broken('%s: guard of %s is not comparison-only: %s' % (fn.full, fn.expr(target)[:40], e))
+        return None
+    consts = {0} | set(extra)
+    for p, _s in progs:
+        consts |= set(p.consts)
+    for c in list(consts):
+        consts |= {c - 1, c + 1} if dom[0] <= c - 1 and c + 1 <= dom[1] else set()
+    bad = None
+    nw = 0
+    for w in OT.worlds({'n': dom}, consts):
+        nw += 1
+        reach = all(OT.run(p, w).as_bool() == bool(s) for (p, s) in progs)
+        if reach != bool(want(w)) and bad is None:
+            bad = (w, reach)
+    R.check(bad is None, rule, key, fn.loc(rel[0][0]) if rel else fn.loc(target),
+            '%s: for %s the guarded operation is %s' % (what, bad[0].witness() if bad else '', 'executed' if bad and bad[1] else 'not executed'),
+            detail='guards %s decided over %d order types' % ([fn.expr(c) for (c, _s, _b) in rel], nw))
+    return rel
+
+
+def _wkb_set_size(fb, R, methods, data):
+    fn = methods.get('set_size')
+    key = WKB + '::set_size'
+    if fn is None or len(fn.params) != 2:
+        R.bad('B4-set_size-patches-uint32', key + '#patch', WKB, 'set_size(offset, size) not found')
+        return
+    po, ps = fn.params[0]['d'], fn.params[1]['d']
+    copies = [n for n in fn.all_nodes() if n.get('k') == 'call' and n.get('q') in ('std::copy_n', 'std::memcpy', 'memcpy', 'std::copy')]
+    msg = None
+    if len(copies) != 1 or copies[0]['q'] != 'std::copy_n' or len(copies[0].get('args', [])) != 3:
+        msg = 'expected exactly one std::copy_n(src, n, dst)'
+    else:
+        src, cnt, dst = copies[0]['args']
+        d = pn(fn, dst)
+        okd = d is not None and d.get('k') == 'unop' and d.get('op') == '&'
+        if okd:
+            ix = pn(fn, d['sub'])
+            okd = ix is not None and ix.get('k') == 'call' and ix.get('q') == BS + 'operator[]' and recv_field(fn, ix) == data \
+                and len(ix.get('args', [])) == 1 and local_or_param(fn, ix['args'][0]) == po
+        s = pn(fn, src, explicit_noop=True)
+        while s is not None and s.get('k') == 'cast':
+            s = pn(fn, s['sub'], explicit_noop=True)
+        oks = s is not None and s.get('k') == 'unop' and s.get('op') == '&'
+        if oks:
+            sd = local_or_param(fn, s['sub'])
+            dn, dv = decl_of(fn, sd) if sd is not None else (None, None)
+            oks = dv is not None and dv['tC'].replace('const ', '') == 'unsigned int' and not [w for w in writes(fn) if w[1] == ('var', sd)]
+            if oks:
+                i = pn(fn, dv.get('init'), explicit_noop=False)
+                oks = i is not None and i.get('k') == 'cast' and local_or_param(fn, i['sub']) == ps
+        if fn.const_value(cnt) != 4:
+            msg = 'the number of bytes patched is %s, the count field is a 4 byte uint32' % fn.const_value(cnt)
+        elif not okd:
+            msg = 'the destination is not &%s[offset]' % data
+        elif not oks:
+            msg = 'the source is not the address of a uint32_t local initialised with static_cast<uint32_t>(size)'
+    R.check(msg is None, 'B4-set_size-patches-uint32', key + '#patch', fn.site, 'set_size: %s' % msg)
+    if msg is None:
+        _decide_guard(fb, R, fn, copies[0]['id'], ps, OT.UINT64, lambda w: w.le('n', 4294967295), 'B4-set_size-patches-uint32',
+                      key + '#range-guard', 'exactly the sizes above UINT32_MAX must be rejected before narrowing to uint32_t', extra=(4294967295,))
+        thr = [n for n in fn.all_nodes() if _geom_error_throw(n)]
+        R.check(bool(thr), 'B4-set_size-patches-uint32', key + '#range-guard/throws', fn.site, 'set_size does not throw geometry_error for oversized counts')
+
+
+def _wkb_header(fb, R, methods, data):
+    fn = methods.get('header')
+    key = WKB + '::header'
+    if fn is None or len(fn.params) != 3:
+        R.bad('B5-header-layout', key + '#offset', WKB, 'header(str, type, add_length) not found')
+        return
+    pstr, ptype, plen = (p['d'] for p in fn.params)
+    rets = [n for n in fn.all_nodes() if n.get('k') == 'return']
+    od = {local_or_param(fn, r.get('sub')) for r in rets}
+    msg = None
+    pushes = [n for n in fn.all_nodes() if n.get('k') == 'call' and n.get('q') == STR_PUSH and len(n.get('args', [])) == 2
+              and local_or_param(fn, n['args'][0]) == pstr]
+    other_mut = [n for n in fn.all_nodes() if n.get('k') == 'call' and n.get('q', '').startswith(BS) and n.get('recv') is not None
+                 and local_or_param(fn, n['recv']) == pstr and short(n['q']) not in ('size', 'length', 'empty')]
+    if len(od) != 1 or None in od:
+        msg = 'does not return one local'
+    else:
+        d = od.pop()
+        dn, dv = decl_of(fn, d)
+        i = pn(fn, dv.get('init')) if dv is not None else None
+        if i is None or i.get('k') != 'call' or i.get('q') != BS + 'size' or local_or_param(fn, i.get('recv')) != pstr \
+                or [w for w in writes(fn) if w[1] == ('var', d)]:
+            msg = 'the returned offset is not `str.size()` taken once'
+        elif other_mut:
+            msg = 'str is modified other than through str_push'
+        else:
+            after = [p for p in pushes if path_search(fn, dn['id'], lambda e: e == p['id'], lambda e: False) is not None]
+            before = [p for p in pushes if p not in after]
+            if len(after) != 1 or fn.const_value(after[0]['args'][1]) != 0 or fn.nodes.get(peel(fn, after[0]['args'][1]), {}).get('t') != 'unsigned int':
+                msg = 'after the offset is taken exactly one uint32 zero (the count placeholder) must be appended; found %s' % [fn.expr(p['id']) for p in after]
+            elif not any(s and local_or_param(fn, c) == plen for (c, s, _b) in guards_of(fn, after[0]['id'])):
+                msg = 'the count placeholder is not appended under `add_length`'
+            elif any(path_search(fn, p['id'], lambda e: e == dn['id'], lambda e: False) is None for p in before):
+                msg = 'a header field is appended on a path that does not continue to the offset computation'
+            else:
+                # per path: byte order (1 byte), type (uint32, from parameter), [srid iff SRID flag]
+                for path in normal_paths(fn) or []:
+                    seq = [fn.nodes[e] for e in path_elems(fn, path) if fn.nodes[e] in before]
+                    kinds = []
+                    for p in seq:
+                        a = p['args'][1]
+                        an = fn.nodes.get(peel(fn, a), {})
+                        vars_ = [fn.nodes[x] for x in fn.subtree(a) if fn.nodes[x].get('k') == 'var']
+                        if any(v.get('d') == ptype for v in vars_):
+                            kinds.append('type+srid' if any(short(v.get('q', '')) == 'wkbSRID' for v in vars_) else 'type')
+                        elif 'wkb_byte_order_type' in (an.get('t') or ''):
+                            kinds.append('order')
+                        elif this_field(fn, a) is not None and (an.get('t') or '').replace('const ', '') == 'int':
+                            kinds.append('srid')
+                        else:
+                            kinds.append('?' + fn.expr(a))
+                    if kinds not in (['order', 'type'], ['order', 'type+srid', 'srid']):
+                        msg = 'header fields on one path are %s; required: byte order, type, and the srid exactly when the SRID flag is set' % kinds
+    R.check(msg is None, 'B5-header-layout', key + '#offset', fn.site, 'header(): %s' % msg)
+    # enum values
+    e = fb.enum(WKB + '::wkbGeometryType')
+    if e is None:
+        R.broken('enum %s::wkbGeometryType not found' % WKB)
+    else:
+        vals = {x['name']: int(x['value']) for x in e['enumerators']}
+        wrong = {k: v for k, v in vals.items() if k in OGC_TYPES and OGC_TYPES[k] != v}
+        R.check(not wrong and all(k in vals for k in ('wkbPoint', 'wkbLineString', 'wkbPolygon', 'wkbMultiPolygon', 'wkbSRID')),
+                'B5-header-layout', WKB + '::wkbGeometryType#ogc-values', '%s:%d' % (e['file'], e['line']),
+                'geometry type codes differ from the OGC / EWKB table: %s' % wrong)
+    # users
+    for mname, (tname, addlen) in WKB_HEADER_USERS.items():
+        k2 = '%s::%s#header(%s)' % (WKB, mname, tname)
+        m = methods.get(mname)
+        if m is None:
+            R.bad('B5-header-layout', k2, WKB, '%s not found' % mname)
+            continue
+        hs = [n for n in m.all_nodes() if n.get('k') == 'call' and n.get('q') == WKB + '::header']
+        msg = None
+        if len(hs) != 1 or len(hs[0].get('args', [])) != 3:
+            msg = 'expected exactly one header() call'
+        else:
+            h = hs[0]
+            t = pn(m, h['args'][1])
+            if t is None or short(t.get('q', '')) != tname:
+                msg = 'writes geometry type %s, required %s' % (short(t.get('q', '?')) if t else '?', tname)
+            elif m.const_value(h['args'][2]) != addlen:
+                msg = 'add_length must be %s' % bool(addlen)
+            elif addlen:
+                # result must be stored in a member or handed to set_size
+                pm = m.parent_map()
+                x = h['id']
+                used = False
+                hops = 0
+                while x in pm and hops < 6:
+                    x = pm[x]
+                    hops += 1
+                    nx = m.nodes[x]
+                    if nx.get('k') == 'assign' and this_field(m, nx['lhs']) is not None:
+                        used = True
+                    if nx.get('k') == 'call' and nx.get('q') == WKB + '::set_size':
+                        used = True
+                if not used:
+                    msg = 'the offset of the count placeholder returned by header() is discarded: the count stays 0'
+            w = path_search(m, m.entry, exit_t, lambda e_: e_ == h['id'], from_block_start=True) if msg is None else None
+            if w is not None:
+                msg = 'header() is not written on every path'
+        R.check(msg is None, 'B5-header-layout', k2, m.site, '%s: %s' % (mname, msg))
+        if mname == 'polygon_start' and msg is None:
+            ss = [n for n in _set_size_calls(m) if _header_call(m, n['args'][0]) is not None]
+            R.check(len(ss) == 1 and m.const_value(ss[0]['args'][1]) == 1, 'B5-header-layout', WKB + '::polygon_start#ring-count-1', m.site,
+                    'polygon_start must patch the ring count of the polygon header with the constant 1 (a polygon built from a way has one ring)')
+
+
+def _coord_pushes(fn, data_key):
+    out = []
+    for n in fn.all_nodes():
+        if n.get('k') == 'call' and n.get('q') == STR_PUSH and len(n.get('args', [])) == 2:
+            out.append(n)
+    return out
+
+
+def _wkb_axis(fb, R, methods, data):
+    rec = fb.record(COORD)
+    fx, fy = (rec.fields[0]['name'], rec.fields[1]['name']) if rec is not None and len(rec.fields) >= 2 else ('x', 'y')
+    for mname in ('make_point', 'linestring_add_location', 'polygon_add_location', 'multipolygon_add_location'):
+        key = '%s::%s#x-then-y' % (WKB, mname)
+        fn = methods.get(mname)
+        if fn is None or not fn.params or COORD not in fn.params[0]['tC']:
+            R.bad('X1-axis-order', key, WKB, '%s(const Coordinates&) not found' % mname)
+            continue
+        pd = fn.params[0]['d']
+        pushes = _coord_pushes(fn, data)
+        seq = []
+        for p in sorted(pushes, key=lambda n: fn.positions().get(n['id'], (0, 0))[::-1] if False else n['id']):
+            a = pn(fn, p['args'][1])
+            if a is not None and a.get('k') == 'member' and local_or_param(fn, a.get('base')) == pd:
+                seq.append((a['name'], p, fn.nodes.get(p['args'][1], {}).get('t') or a.get('t')))
+            else:
+                seq.append(('?' + fn.expr(p['args'][1]), p, None))
+        msg = None
+        names = [s[0] for s in seq]
+        if sorted(names) != sorted([fx, fy]):
+            msg = 'must push exactly the two members %s and %s of its parameter, found %s' % (fx, fy, names)
+        else:
+            px = next(s[1] for s in seq if s[0] == fx)
+            py = next(s[1] for s in seq if s[0] == fy)
+            if not fn.elem_dominates(px['id'], py['id']):
+                msg = '%s must be written before %s (WKB point = x then y)' % (fx, fy)
+            elif any((pn(fn, s[1]['args'][1]) or {}).get('t', '').replace('const ', '') != 'double' for s in seq):
+                msg = 'coordinates must be pushed as 8 byte doubles'
+            else:
+                tgt = {lvalue_key(fn, s[1]['args'][0]) for s in seq}
+                if len(tgt) != 1 or None in tgt:
+                    msg = 'x and y are pushed into different strings'
+                for s in seq:
+                    if path_search(fn, fn.entry, exit_t, lambda e, i=s[1]['id']: e == i, from_block_start=True) is not None:
+                        msg = 'a coordinate is not written on every path'
+        R.check(msg is None, 'X1-axis-order', key, fn.site, '%s: %s' % (mname, msg))
+    # Coordinates::append_to_string
+    q = COORD + '::append_to_string'
+    got3 = got5 = False
+    for fn in fb.fns(q):
+        if len(fn.params) == 3:
+            got3 = True
+            ps, pi, pp = (p['d'] for p in fn.params)
+            d2s = [n for n in fn.all_nodes() if n.get('k') == 'call' and short(n.get('q', '')) == 'double2string']
+            inf = [n for n in fn.all_nodes() if n.get('k') == 'call' and n.get('q') == BS + 'operator+=' and local_or_param(fn, n.get('recv')) == ps
+                   and n.get('args') and local_or_param(fn, n['args'][0]) == pi]
+            msg = None
+            if len(d2s) != 2 or len(inf) != 1:
+                msg = 'expected double2string(x), s += infix, double2string(y)'
+            else:
+                def fld(c):
+                    a = pn(fn, c['args'][1]) if len(c.get('args', [])) == 3 else None
+                    return a['name'] if a is not None and a.get('k') == 'member' and fn.is_this_member(a['id']) else None
+                byf = {fld(c): c for c in d2s}
+                if set(byf) != {fx, fy}:
+                    msg = 'the two numbers written are %s, required %s and %s' % (sorted(map(str, byf)), fx, fy)
+                elif not (fn.elem_dominates(byf[fx]['id'], inf[0]['id']) and fn.elem_dominates(inf[0]['id'], byf[fy]['id'])):
+                    msg = 'order must be %s, infix, %s' % (fx, fy)
+                elif any(local_or_param(fn, c['args'][0]) != ps or local_or_param(fn, c['args'][2]) != pp for c in d2s):
+                    msg = 'double2string must receive the output string and the precision parameter'
+                elif not any(s and (pn(fn, c) or {}).get('q') == COORD + '::valid' for (c, s, _b) in guards_of(fn, byf[fx]['id'])):
+                    msg = 'numbers are written without valid() having been tested'
+            R.check(msg is None, 'X1-axis-order', q + '#x-infix-y', fn.site, 'append_to_string(s, infix, precision): %s' % msg)
+        elif len(fn.params) == 5:
+            got5 = True
+            ps, ppre, pi, psuf, pp = (p['d'] for p in fn.params)
+            adds = [n for n in fn.all_nodes() if n.get('k') == 'call' and n.get('q') == BS + 'operator+=' and local_or_param(fn, n.get('recv')) == ps]
+            inner = [n for n in fn.all_nodes() if n.get('k') == 'call' and n.get('q') == q]
+            msg = None
+            if len(adds) != 2 or len(inner) != 1:
+                msg = 'expected s += prefix, append_to_string(s, infix, precision), s += suffix'
+            else:
+                pre = [a for a in adds if local_or_param(fn, a['args'][0]) == ppre]
+                suf = [a for a in adds if local_or_param(fn, a['args'][0]) == psuf]
+                ia = inner[0].get('args', [])
+                if len(pre) != 1 or len(suf) != 1:
+                    msg = 'prefix / suffix are not appended once each'
+                elif not (fn.elem_dominates(pre[0]['id'], inner[0]['id']) and fn.elem_dominates(inner[0]['id'], suf[0]['id'])):
+                    msg = 'order must be prefix, coordinates, suffix'
+                elif len(ia) != 3 or [local_or_param(fn, a) for a in ia] != [ps, pi, pp] or not is_this(fn, inner[0].get('recv')):
+                    msg = 'the inner call must be this->append_to_string(s, infix, precision)'
+            R.check(msg is None, 'X1-axis-order', q + '#prefix-body-suffix', fn.site, 'append_to_string(s, prefix, infix, suffix, precision): %s' % msg)
+    if not got3:
+        R.bad('X1-axis-order', q + '#x-infix-y', COORD, 'append_to_string(s, infix, precision) not found')
+    if not got5:
+        R.bad('X1-axis-order', q + '#prefix-body-suffix', COORD, 'append_to_string(s, prefix, infix, suffix, precision) not found')
+
+
+def _wkb_handover(fb, R, methods, data):
+    hex_enum = 'osmium::geom::out_type::hex'
+    for mname in ('make_point', 'linestring_finish', 'polygon_finish', 'multipolygon_finish'):
+        fn = methods.get(mname)
+        key = '%s::%s' % (WKB, mname)
+        if fn is None:
+            R.bad('B7-patch-before-handover', key + '#hex-iff-requested', WKB, '%s not found' % mname)
+            continue
+        swaps = [n for n in fn.all_nodes() if n.get('k') == 'call' and n.get('q') == 'std::swap' and len(n.get('args', [])) == 2]
+        local = None
+        if mname != 'make_point':
+            msg = None
+            sw = [n for n in swaps if {lvalue_key(fn, a) for a in n['args']} >= {('field', data)}]
+            if len(sw) != 1:
+                msg = 'expected one swap of a local string with %s' % data
+            else:
+                other = [lvalue_key(fn, a) for a in sw[0]['args'] if lvalue_key(fn, a) != ('field', data)]
+                local = other[0][1] if other and other[0] and other[0][0] == 'var' else None
+                dn, dv = decl_of(fn, local) if local is not None else (None, None)
+                i = pn(fn, dv.get('init')) if dv is not None and isinstance(dv.get('init'), int) else None
+                if local is None or not (i is None or (i.get('k') == 'construct' and not i.get('args'))):
+                    msg = 'the local swapped with %s is not a fresh empty string (stale content would survive in %s)' % (data, data)
+                for c in _set_size_calls(fn):
+                    if not fn.elem_dominates(c['id'], sw[0]['id']):
+                        msg = 'set_size runs after %s was handed over to the local: it patches an empty string' % data
+            R.check(msg is None, 'B7-patch-before-handover', key + '#patch-before-handover', fn.site, '%s: %s' % (mname, msg))
+        else:
+            hs = [n for n in fn.all_nodes() if n.get('k') == 'call' and n.get('q') == WKB + '::header']
+            local = local_or_param(fn, hs[0]['args'][0]) if len(hs) == 1 and hs[0].get('args') else None
+        rets = [n for n in fn.all_nodes() if n.get('k') == 'return']
+        msg = None if rets and local is not None else 'cannot identify the result string'
+        nhex = nraw = 0
+        for r in rets:
+            if msg is not None:
+                break
+            gs = guards_of(fn, r['id'])
+            hexg = None
+            for (c, s, _b) in gs:
+                cn = pn(fn, c)
+                if cn is not None and cn.get('k') == 'binop' and cn.get('op') in ('==', '!='):
+                    sides = [pn(fn, cn['lhs']), pn(fn, cn['rhs'])]
+                    if any(x is not None and x.get('q') == hex_enum for x in sides) and any(this_field(fn, y) is not None for y in (cn['lhs'], cn['rhs'])):
+                        hexg = (cn['op'] == '==') == bool(s)
+            v = pn(fn, r.get('sub'))
+            is_hex = v is not None and v.get('k') == 'call' and v.get('q') == 'osmium::geom::detail::convert_to_hex' \
+                and v.get('args') and local_or_param(fn, v['args'][0]) == local
+            is_raw = local_or_param(fn, r.get('sub')) == local
+            if hexg is None:
+                # the fall-through return: reached when the hex test failed (early return on the hex edge)
+                hexg = False if any((pn(fn, fn.blocks[b].get('cond')) or {}).get('k') == 'binop' for b in fn.blocks if 'cond' in fn.blocks[b]) else None
+            if hexg is True and not is_hex:
+                msg = 'out_type::hex does not return convert_to_hex(<result>)'
+            elif hexg is False and not is_raw:
+                msg = 'binary output does not return the result string unchanged'
+            elif hexg is None:
+                msg = 'return is not related to the out_type test'
+            nhex += bool(is_hex)
+            nraw += bool(is_raw)
+        if msg is None and (nhex == 0 or nraw == 0):
+            msg = 'both a hex and a binary return are required'
+        R.check(msg is None, 'B7-patch-before-handover', key + '#hex-iff-requested', fn.site, '%s: %s' % (mname, msg))
+
+
+def reset_rules(fb, R):
+    for cls in (WKB, WKT, GEOJSON):
+        buf = _buffer_field(fb, cls)
+        if buf is None:
+            R.broken('%s: cannot identify the accumulation buffer member' % cls)
+            continue
+        for mname in ('linestring_start', 'polygon_start', 'multipolygon_start'):
+            key = '%s::%s#reset' % (cls, mname)
+            fn = _method(fb, cls, mname)
+            if fn is None:
+                R.bad('B6-start-resets-buffer', key, cls, '%s not found' % mname)
+                continue
+            elems = _single_path_elems(fn)
+            if elems is None:
+                R.broken('%s::%s: not a straight-line body' % (cls, mname))
+                continue
+            first = None
+            for e in elems:
+                n = fn.nodes[e]
+                if n.get('k') != 'call':
+                    continue
+                touches = recv_field(fn, n) == buf or any(this_field(fn, a) == buf for a in n.get('args', []))
+                if not touches or (n.get('q', '').startswith(BS) and short(n['q']) in ('size', 'empty', 'length', 'capacity')):
+                    continue
+                first = n
+                break
+            ok = first is not None and recv_field(fn, first) == buf and first.get('q') in (BS + 'clear', BS + 'operator=', BS + 'assign')
+            R.check(ok, 'B6-start-resets-buffer', key, fn.loc(first['id']) if first else fn.site,
+                    '%s::%s appends to %s without resetting it first (content left behind by a geometry that ended in an exception, e.g. '
+                    '"need at least two points", would be prepended to the next geometry); first operation: %s'
+                    % (short(cls), mname, buf, fn.expr(first['id']) if first else 'none'))
+
+
+# ================================================================================================ text back ends
+
+TEXT_METHODS = ['make_point', 'linestring_start', 'linestring_add_location', 'linestring_finish', 'polygon_start', 'polygon_add_location',
+                'polygon_finish', 'multipolygon_start', 'multipolygon_polygon_start', 'multipolygon_polygon_finish',
+                'multipolygon_outer_ring_start', 'multipolygon_outer_ring_finish', 'multipolygon_inner_ring_start',
+                'multipolygon_inner_ring_finish', 'multipolygon_add_location', 'multipolygon_finish']
+STRING_READS = ('size', 'empty', 'length', 'capacity', 'c_str', 'data', 'back', 'front', '(dtor)', 'begin', 'end')
+
+
+class _Unknown(Exception):
+    pass
+
+
+def _is_string_t(t):
+    t = (t or '').replace('const ', '')
+    return t.startswith(('std::string', 'std::basic_string<char'))
+
+
+def _text_ops(fn, buf, other_fields):
+    """Straight-line string transformer of one back-end method: list of ops over string objects ('field', name) / ('var', d).
+       ('set', T, tokens) ('copy', T, S) ('append', T, tokens) ('point', T, prefix, infix, suffix, precision-ok)
+       ('replace_last', T, ch) ('swap', A, B) ('return', T)"""
+    paths = normal_paths(fn)
+    if not paths:
+        raise _Unknown('no normal path / loop in body')
+    results = []
+    for path in paths:
+        ops = []
+        handled = set()
+        for e in path_elems(fn, path):
+            n = fn.nodes[e]
+            k = n.get('k')
+            if k == 'decl':
+                for v in n['vars']:
+                    if not _is_string_t(v['tC']):
+                        continue
+                    i = pn(fn, v.get('init')) if isinstance(v.get('init'), int) else None
+                    if i is None or (i.get('k') == 'construct' and not i.get('args')):
+                        ops.append(('set', ('var', v['d']), []))
+                    else:
+                        s = string_of(fn, v['init'])
+                        src = lvalue_key(fn, i['args'][0]) if i.get('k') == 'construct' and len(i.get('args', [])) >= 1 else lvalue_key(fn, v['init'])
+                        if s is not None:
+                            ops.append(('set', ('var', v['d']), list(s)))
+                        elif src is not None:
+                            ops.append(('copy', ('var', v['d']), src))
+                        else:
+                            raise _Unknown('string local %s initialised by %s' % (v['name'], fn.expr(v['init'])))
+                continue
+            if k == 'assign':
+                l = pn(fn, n['lhs'])
+                if l is not None and l.get('k') == 'call' and l.get('q') == BS + 'back' and l.get('recv') is not None:
+                    T = lvalue_key(fn, l['recv'])
+                    ch = char_of(fn, n['rhs'])
+                    if T is None or ch is None or n.get('op') != '=':
+                        raise _Unknown('assignment through back(): %s' % fn.expr(e))
+                    ops.append(('replace_last', T, ch))
+                    handled.add(l['id'])
+                elif l is not None and _is_string_t(l.get('t')):
+                    raise _Unknown('string assignment %s' % fn.expr(e))
+                continue
+            if k == 'return':
+                if 'sub' in n:
+                    T = lvalue_key(fn, n['sub'])
+                    if T is None:
+                        raise _Unknown('returns %s' % fn.expr(n['sub']))
+                    ops.append(('return', T))
+                continue
+            if k != 'call' or 'q' not in n:
+                continue
+            q = n['q']
+            if q == 'std::swap' and len(n.get('args', [])) == 2:
+                A, B = lvalue_key(fn, n['args'][0]), lvalue_key(fn, n['args'][1])
+                if A is None or B is None:
+                    raise _Unknown('swap of %s' % fn.expr(e))
+                ops.append(('swap', A, B))
+                continue
+            if q == COORD + '::append_to_string':
+                a = n.get('args', [])
+                T = lvalue_key(fn, a[0]) if a else None
+                rv = local_or_param(fn, n.get('recv'))
+                if T is None or rv is None or param_index(fn, rv) != 0:
+                    raise _Unknown('append_to_string call %s' % fn.expr(e))
+                chars = [char_of(fn, x) for x in a[1:-1]]
+                if None in chars or len(chars) not in (1, 3):
+                    raise _Unknown('append_to_string with non-constant delimiters: %s' % fn.expr(e))
+                precf = this_field(fn, a[-1])
+                pre, inf, suf = (None, chars[0], None) if len(chars) == 1 else chars
+                ops.append(('point', T, pre, inf, suf, precf))
+                continue
+            if q.startswith(BS) and n.get('recv') is not None:
+                T = lvalue_key(fn, n['recv'])
+                nm = short(q)
+                if T is None:
+                    if nm in STRING_READS or nm == '(ctor)':
+                        continue
+                    raise _Unknown('string operation on %s' % fn.expr(n['recv']))
+                if nm in STRING_READS:
+                    continue
+                if nm == 'clear':
+                    ops.append(('set', T, []))
+                    continue
+                a = n.get('args', [])
+                if nm in ('operator=', 'assign') and len(a) == 1:
+                    s = string_of(fn, a[0])
+                    src = lvalue_key(fn, a[0])
+                    if s is not None:
+                        ops.append(('set', T, list(s)))
+                    elif src is not None:
+                        ops.append(('copy', T, src))
+                    else:
+                        raise _Unknown('assignment %s' % fn.expr(e))
+                    continue
+                if nm in ('operator+=', 'append', 'push_back') and len(a) == 1:
+                    s = string_of(fn, a[0])
+                    ch = char_of(fn, a[0]) if s is None else None
+                    if s is not None:
+                        ops.append(('append', T, list(s)))
+                    elif ch is not None:
+                        ops.append(('append', T, [ch]))
+                    elif lvalue_key(fn, a[0]) is not None and _is_string_t(fn.nodes.get(peel(fn, a[0]), {}).get('t')):
+                        ops.append(('append_from', T, lvalue_key(fn, a[0])))
+                    else:
+                        raise _Unknown('append of a non-constant: %s' % fn.expr(e))
+                    continue
+                raise _Unknown('string operation %s' % fn.expr(e))
+        results.append(ops)
+    for r in results[1:]:
+        if r != results[0]:
+            raise _Unknown('different string operations on different paths')
+    return results[0]
+
+
+def _apply(ops, state, buf, tag):
+    """Interpret one method's ops on the abstract buffer content.  Returns (returned token list | None).  Raises _GrammarError."""
+    local = {}
+
+    def get(T):
+        if T == ('field', buf):
+            return state['buf']
+        if T[0] == 'field':
+            return [('PFX', T[1])]
+        return local.setdefault(T, [])
+
+    def put(T, v):
+        if T == ('field', buf):
+            state['buf'] = v
+        elif T[0] == 'field':
+            raise _Unknown('write to member %s' % T[1])
+        else:
+            local[T] = v
+    ret = None
+    for op in ops:
+        if op[0] == 'set':
+            put(op[1], list(op[2]))
+        elif op[0] == 'copy':
+            put(op[1], list(get(op[2])))
+        elif op[0] == 'append':
+            put(op[1], get(op[1]) + list(op[2]))
+        elif op[0] == 'append_from':
+            put(op[1], get(op[1]) + list(get(op[2])))
+        elif op[0] == 'point':
+            put(op[1], get(op[1]) + [('P', op[2], op[3], op[4], tag)])
+        elif op[0] == 'replace_last':
+            cur = get(op[1])
+            if not cur:
+                raise _GrammarError('back() = %r on an empty string' % op[2])
+            if cur[-1] != ',':
+                raise _GrammarError('back() = %r overwrites %s, which is not a separator: content is lost' % (op[2], _show([cur[-1]])))
+            put(op[1], cur[:-1] + [op[2]])
+        elif op[0] == 'swap':
+            a, b = get(op[1]), get(op[2])
+            put(op[1], b)
+            put(op[2], a)
+        elif op[0] == 'return':
+            ret = list(get(op[1]))
+    return ret
+
+
+class _GrammarError(Exception):
+    pass
+
+
+def _show(tokens):
+    out = []
+    for t in tokens:
+        if isinstance(t, tuple):
+            if t[0] == 'PFX':
+                out.append('<srid-prefix>')
+            else:
+                out.append('%sx%d%sy%d%s' % (t[1] or '', t[4], t[2], t[4], t[3] or ''))
+        else:
+            out.append(t)
+    return ''.join(out)
+
+
+TEXT_FORMATS = {
+    WKT: dict(open='(', close=')', leaf=(None, ' ', None), point=('(', ' ', ')'),
+              head={'point': 'POINT', 'linestring': 'LINESTRING', 'polygon': 'POLYGON', 'multipolygon': 'MULTIPOLYGON'}, tail='', prefix_ok=True),
+    GEOJSON: dict(open='[', close=']', leaf=('[', ',', ']'), point=('[', ',', ']'),
+                  head={'point': '{"type":"Point","coordinates":', 'linestring': '{"type":"LineString","coordinates":',
+                        'polygon': '{"type":"Polygon","coordinates":', 'multipolygon': '{"type":"MultiPolygon","coordinates":'}, tail='}',
+                  prefix_ok=False),
+}
+DEPTH = {'linestring': 1, 'polygon': 2, 'multipolygon': 3}
+
+
+def _parse(tokens, fmt, kind):
+    """Reference grammar: [prefix] head value tail ; value = point | nested list of depth DEPTH[kind] with ',' between siblings.
+    Returns the nested list of point tags.  Raises _GrammarError."""
+    pos = 0
+    if tokens and isinstance(tokens[0], tuple) and tokens[0][0] == 'PFX':
+        if not fmt['prefix_ok']:
+            raise _GrammarError('unexpected SRID prefix')
+        pos = 1
+    head = fmt['head'][kind]
+    got = ''.join(t for t in tokens[pos:pos + len(head)] if isinstance(t, str))
+    if got != head:
+        raise _GrammarError('geometry starts with %r, required %r' % (_show(tokens[pos:pos + len(head)]), head))
+    pos += len(head)
+
+    def leaf(shape):
+        nonlocal pos
+        if pos >= len(tokens) or not (isinstance(tokens[pos], tuple) and tokens[pos][0] == 'P'):
+            raise _GrammarError('expected a coordinate pair at %r' % _show(tokens[pos:pos + 6]))
+        t = tokens[pos]
+        if (t[1], t[2], t[3]) != shape:
+            raise _GrammarError('coordinate pair written as %r, required delimiters %r' % (_show([t]), shape))
+        pos += 1
+        return t[4]
+
+    def lst(depth):
+        nonlocal pos
+        if pos >= len(tokens) or tokens[pos] != fmt['open']:
+            raise _GrammarError('expected %r at ...%s' % (fmt['open'], _show(tokens[max(0, pos - 4):pos + 4])))
+        pos += 1
+        items = []
+        while True:
+            items.append(leaf(fmt['leaf']) if depth == 1 else lst(depth - 1))
+            if pos < len(tokens) and tokens[pos] == ',':
+                pos += 1
+                continue
+            break
+        if pos >= len(tokens) or tokens[pos] != fmt['close']:
+            raise _GrammarError('expected %r or a separator at ...%s' % (fmt['close'], _show(tokens[max(0, pos - 6):pos + 4])))
+        pos += 1
+        return items
+    val = leaf(fmt['point']) if kind == 'point' else lst(DEPTH[kind])
+    rest = ''.join(t if isinstance(t, str) else '?' for t in tokens[pos:])
+    if rest != fmt['tail']:
+        raise _GrammarError('geometry ends with %r, required %r' % (_show(tokens[pos:]), fmt['tail']))
+    return val
+
+
+def _sequences(kind):
+    """(event list, expected nested tag structure) for every protocol sequence up to the bound."""
+    out = []
+    if kind == 'point':
+        return [([('make_point', 1)], 1)]
+    if kind in ('linestring', 'polygon'):
+        for k in (1, 2, 3):
+            ev = [(kind + '_start', None)] + [(kind + '_add_location', i + 1) for i in range(k)] + [(kind + '_finish', None)]
+            pts = [i + 1 for i in range(k)]
+            out.append((ev, pts if kind == 'linestring' else [pts]))
+        return out
+    shapes = []
+    for npoly in (1, 2):
+        per_poly = list(itertools.product((0, 1, 2), repeat=npoly))
+        for inner_counts in per_poly:
+            for k in (1, 2):
+                shapes.append((inner_counts, k))
+    for inner_counts, k in shapes:
+        ev = [('multipolygon_start', None)]
+        expect = []
+        tag = 0
+        first = True
+        for ni in inner_counts:
+            if not first:
+                ev.append(('multipolygon_polygon_finish', None))
+            first = False
+            ev.append(('multipolygon_polygon_start', None))
+            poly = []
+            for r in range(1 + ni):
+                which = 'outer' if r == 0 else 'inner'
+                ev.append(('multipolygon_%s_ring_start' % which, None))
+                ring = []
+                for _ in range(k):
+                    tag += 1
+                    ev.append(('multipolygon_add_location', tag))
+                    ring.append(tag)
+                ev.append(('multipolygon_%s_ring_finish' % which, None))
+                poly.append(ring)
+            expect.append(poly)
+        ev.append(('multipolygon_polygon_finish', None))
+        ev.append(('multipolygon_finish', None))
+        out.append((ev, expect))
+    return out
+
+
+def text_rules(fb, R):
+    for cls, fmt in TEXT_FORMATS.items():
+        rec = fb.record(cls)
+        if rec is None:
+            R.broken('record %s not found' % cls)
+            continue
+        buf = _buffer_field(fb, cls)
+        if buf is None:
+            R.broken('%s: cannot identify the accumulation buffer member' % cls)
+            continue
+        other = [f['name'] for f in rec.fields if _is_string_t(f['tC']) and f['name'] != buf]
+        ops = {}
+        broken = False
+        for m in TEXT_METHODS:
+            fn = _method(fb, cls, m)
+            if fn is None:
+                R.bad('S1-text-nesting-grammar', '%s#%s' % (cls, m.split('_')[0] if not m.startswith('make') else 'point'), cls, 'method %s not found' % m)
+                broken = True
+                continue
+            try:
+                ops[m] = _text_ops(fn, buf, other)
+            except _Unknown as e:
+                R.broken('%s::%s: string transformer not understood: %s' % (cls, m, e))
+                broken = True
+        if broken:
+            continue
+        # precision member
+        precs = {op[5] for m in ops.values() for op in m if op[0] == 'point'}
+        intf = [f['name'] for f in rec.fields if f['tC'] == 'int']
+        ctor_ok = False
+        for c in fb.fns(cls + '::(ctor)'):
+            for n in c.all_nodes():
+                if n.get('k') == 'init' and n.get('name') in precs and local_or_param(c, n.get('init')) is not None \
+                        and param_index(c, local_or_param(c, n['init'])) is not None:
+                    ctor_ok = True
+        R.check(len(precs) == 1 and None not in precs and precs <= set(intf) and ctor_ok, 'S1-text-nesting-grammar', cls + '#precision-member',
+                '%s:%d' % (rec.file, rec.line),
+                'every coordinate must be formatted with the precision member that the constructor fills from its parameter; found %s' % sorted(map(str, precs)))
+        for kind in ('point', 'linestring', 'polygon', 'multipolygon'):
+            key = '%s#%s' % (cls, kind)
+            err = None
+            nseq = 0
+            for (events, expect) in _sequences(kind):
+                nseq += 1
+                state = {'buf': []}
+                ret = None
+                try:
+                    # a previous geometry that ended in an exception leaves content behind: start from a dirty buffer as well
+                    for dirty in ([], ['#', ',']) if kind != 'point' else ([],):
+                        state['buf'] = list(dirty)
+                        for (m, tag) in events:
+                            ret = _apply(ops[m], state, buf, tag)
+                        if ret is None:
+                            raise _GrammarError('the finishing method returns nothing')
+                        got = _parse(ret, fmt, kind)
+                        if got != expect:
+                            raise _GrammarError('structure %r was fed in but the text encodes %r' % (expect, got))
+                        if state['buf']:
+                            raise _GrammarError('finish leaves %r in %s' % (_show(state['buf']), buf))
+                except _GrammarError as e:
+                    err = '%s; events %s produce %r' % (e, ' '.join(m.replace('multipolygon_', 'mp_') for (m, _t) in events), _show(ret or state['buf']))
+                    break
+                except _Unknown as e:
+                    R.broken('%s: %s' % (key, e))
+                    break
+            fn0 = _method(fb, cls, 'make_point' if kind == 'point' else kind + '_start')
+            R.check(err is None, 'S1-text-nesting-grammar', key, fn0.site if fn0 else cls, err or '', detail='%d protocol sequences composed and parsed' % nseq)
+
+
+# ================================================================================================ hex, snprintf
+
+def _eval_int(fn, nid, env):
+    """Evaluate an integer expression over env {decl: value} with C semantics for the operators used by convert_to_hex."""
+    n = fn.nodes.get(nid)
+    if n is None:
+        raise _Unknown('missing node')
+    k = n.get('k')
+    if k in ('wrap', 'icast'):
+        v = _eval_int(fn, n['sub'], env)
+        t = n.get('t', '')
+        if t == 'unsigned int':
+            return v & 0xffffffff
+        return v
+    if k == 'cast':
+        v = _eval_int(fn, n['sub'], env)
+        if n.get('toC') == 'unsigned int':
+            return v & 0xffffffff
+        if n.get('toC') == 'unsigned char':
+            return v & 0xff
+        raise _Unknown('cast to %s' % n.get('toC'))
+    if k == 'lit' and 'cv' in n:
+        return int(n['cv'])
+    if k == 'var' and n.get('d') in env:
+        return env[n['d']]
+    if k == 'binop' and n.get('op') in ('>>', '&', '<<', '|', '+', '-', '%', '/'):
+        a, b = _eval_int(fn, n['lhs'], env), _eval_int(fn, n['rhs'], env)
+        return {'>>': lambda: a >> b, '&': lambda: a & b, '<<': lambda: (a << b) & 0xffffffff, '|': lambda: a | b, '+': lambda: a + b,
+                '-': lambda: a - b, '%': lambda: a % b, '/': lambda: a // b}[n['op']]()
+    raise _Unknown('expression %s' % fn.expr(nid))
+
+
+def hex_rules(fb, R):
+    q = 'osmium::geom::detail::convert_to_hex'
+    key = q + '#nibbles'
+    fns = fb.fns(q)
+    if not fns:
+        R.bad('H1-hex-encoding', key, q, '%s not found' % q)
+    for fn in fns:
+        msg = None
+        tables = {}
+        for n in fn.all_nodes():
+            if n.get('k') == 'decl':
+                for v in n['vars']:
+                    s = string_of(fn, v.get('init')) if isinstance(v.get('init'), int) else None
+                    if s is not None:
+                        tables[v['d']] = s
+        rets = [n for n in fn.all_nodes() if n.get('k') == 'return']
+        outd = {local_or_param(fn, r.get('sub')) for r in rets}
+        appends = [n for n in fn.all_nodes() if n.get('k') == 'call' and n.get('q') in (BS + 'operator+=', BS + 'push_back') and n.get('recv') is not None
+                   and local_or_param(fn, n['recv']) in outd]
+        appends.sort(key=lambda n: n['id'])
+        if len(fn.loops) != 1 or fn.loops[0]['cls'] != 'CXXForRangeStmt' or len(outd) != 1:
+            msg = 'expected one range-for over the input and one result string'
+        elif len(appends) != 2 or not fn.elem_dominates(appends[0]['id'], appends[1]['id']):
+            msg = 'expected exactly two appends per input byte'
+        else:
+            rng = [v for n in fn.all_nodes() if n.get('k') == 'decl' for v in n['vars'] if v['name'].startswith('__range')]
+            if not rng or local_or_param(fn, rng[0].get('init')) != fn.params[0]['d']:
+                msg = 'the loop does not run over the parameter'
+            elem = [v for n in fn.all_nodes() if n.get('k') == 'decl' and fn.in_range(n['id'], fn.loops[0]['b'], fn.loops[0]['e']) for v in n['vars']
+                    if not v['name'].startswith('__')]
+            if msg is None and len(elem) != 1:
+                msg = 'cannot identify the loop element'
+            if msg is None:
+                ed = elem[0]['d']
+                want = [lambda c: (c & 0xff) >> 4, lambda c: c & 0xf]
+                for ap, w in zip(appends, want):
+                    ix = pn(fn, ap['args'][0])
+                    if ix is None or ix.get('k') != 'index' or local_or_param(fn, ix.get('base')) not in tables:
+                        msg = 'appended value is not an element of the digit table'
+                        break
+                    tab = tables[local_or_param(fn, ix['base'])]
+                    if len(tab) != 16 or any(int(ch, 16) != i for i, ch in enumerate(tab) if ch in '0123456789abcdefABCDEF') or any(ch not in '0123456789abcdefABCDEF' for ch in tab):
+                        msg = 'digit table %r is not the 16 hexadecimal digits in order' % tab
+                        break
+                    try:
+                        for c in range(-128, 256):
+                            if _eval_int(fn, ix['idx'], {ed: c}) != w(c):
+                                msg = 'for byte value %d the %s digit index is %d, required %d' % (c & 0xff, 'first' if w is want[0] else 'second',
+                                                                                                 _eval_int(fn, ix['idx'], {ed: c}), w(c))
+                                break
+                    except _Unknown as e:
+                        R.broken('%s: index expression not understood: %s' % (q, e))
+                        return
+                    if msg:
+                        break
+        R.check(msg is None, 'H1-hex-encoding', key, fn.site, 'convert_to_hex: %s' % msg, detail='both digit indices evaluated for all byte values')
+
+
+def snprintf_rules(fb, R):
+    q = 'osmium::double2string'
+    key = q + '#snprintf-result'
+    fns = [f for f in fb.fns(q) if any(n.get('k') == 'call' and (n.get('q') or n.get('name')) in ('snprintf', 'std::snprintf', '_snprintf')
+                                       for n in f.all_nodes())]
+    if not fns:
+        R.bad('N1-snprintf-length-bounded', key, q, 'no double2string body that calls snprintf was found')
+    for fn in fns:
+        calls = [n for n in fn.all_nodes() if n.get('k') == 'call' and (n.get('q') or n.get('name')) in ('snprintf', 'std::snprintf', '_snprintf')]
+        for c in calls:
+            a = c.get('args', [])
+            bd = local_or_param(fn, a[0]) if a else None
+            dn, dv = decl_of(fn, bd) if bd is not None else (None, None)
+            size = fn.const_value(a[1]) if len(a) > 1 else None
+            arr = None
+            if dv is not None and dv['tC'].startswith('char[') and dv['tC'].endswith(']'):
+                try:
+                    arr = int(dv['tC'][5:-1])
+                except ValueError:
+                    arr = None
+            if arr is None or size is None:
+                R.broken('%s: snprintf buffer / size argument not understood' % fn.full)
+                continue
+            R.check(size <= arr, 'N1-snprintf-length-bounded', q + '#size-arg-within-buffer', fn.loc(c['id']),
+                    'snprintf is told the buffer has %d bytes but it has %d' % (size, arr))
+            # the result variable
+            pm = fn.parent_map()
+            ld = None
+            for n in fn.all_nodes():
+                if n.get('k') == 'decl':
+                    for v in n['vars']:
+                        if isinstance(v.get('init'), int) and peel(fn, v['init']) == c['id']:
+                            ld = v['d']
+            if ld is None:
+                R.bad('N1-snprintf-length-bounded', key, fn.loc(c['id']), 'the result of snprintf (number of characters needed) is discarded')
+                continue
+            uses = []
+            for n in fn.all_nodes():
+                if n.get('k') == 'index' and any(fn.nodes[x].get('k') == 'var' and fn.nodes[x].get('d') == ld for x in fn.subtree(n['idx'])):
+                    uses.append(n)
+                if n.get('k') == 'call' and n.get('q') in ('std::copy_n', 'std::copy', 'memcpy', 'std::memcpy') and \
+                        any(local_or_param(fn, x) == ld for x in n.get('args', [])):
+                    uses.append(n)
+            badu = None
+            for u in uses:
+                rel = [(g, s, b) for (g, s, b) in guards_of(fn, u['id'])
+                       if any(fn.nodes[x].get('k') == 'var' and fn.nodes[x].get('d') == ld for x in fn.subtree(g)) and
+                       not any(fn.nodes[x].get('k') == 'index' for x in fn.subtree(g))]
+
+                def atoms(f, n, ld=ld):
+                    if n.get('k') == 'var' and n.get('d') == ld:
+                        return ('n', OT.INT32)
+                    return None
+                try:
+                    progs = [(OT.compile_expression(fb, fn, g, atoms), s) for (g, s, _b) in rel]
+                except OT.Inexact:
+                    progs = []
+                consts = {0, 1, size, size - 1}
+                for p, _s in progs:
+                    consts |= set(p.consts)
+                implied = bool(progs)
+                for w in OT.worlds({'n': OT.INT32}, consts):
+                    if all(OT.run(p, w).as_bool() == bool(s) for (p, s) in progs) and not (w.gt('n', 0) and w.lt('n', size)):
+                        implied = False
+                if not implied:
+                    badu = u
+                    break
+            R.check(badu is None and bool(uses), 'N1-snprintf-length-bounded', key, fn.loc(badu['id']) if badu else fn.loc(c['id']),
+                    'the value returned by snprintf is used as index / byte count (`%s`) without a test that it is > 0 and < %d that survives '
+                    'in this configuration: a number that needs %d or more characters is truncated and the buffer is read past its end'
+                    % (fn.expr(badu['id'])[:60] if badu else '', size, size),
+                    detail='%d uses of the snprintf result, all dominated by 0 < len < %d' % (len(uses), size))
+
+
+def trim_rules(fb, R):
+    q = 'osmium::double2string'
+    key = q + '#zero-trim-only-after-decimal-point'
+    fns = [f for f in fb.fns(q) if f.loops]
+    if not fns:
+        R.bad('N2-zero-trim-needs-fraction', key, q, 'no double2string body with a trimming loop was found')
+    for fn in fns:
+        prec = next((p['d'] for p in fn.params if p['tC'] == 'int'), None)
+        found = False
+        for lp in fn.loops:
+            hb = loop_header_block(fn, lp)
+            if hb is None:
+                continue
+            c = fn.blocks[hb]['cond']
+            cn = pn(fn, c)
+            # condition compares a buffer character with '0'
+            conj = []
+
+            def split(x):
+                n = pn(fn, x)
+                if n is not None and n.get('k') == 'binop' and n.get('op') == '&&':
+                    split(n['lhs'])
+                    split(n['rhs'])
+                else:
+                    conj.append(x)
+            split(c)
+            zero_cmp = [x for x in conj if (pn(fn, x) or {}).get('k') == 'binop' and pn(fn, x).get('op') == '==' and
+                        {char_of(fn, pn(fn, x)['lhs']), char_of(fn, pn(fn, x)['rhs'])} & {'0'} and
+                        any(fn.nodes[y].get('k') == 'index' for y in fn.subtree(x))]
+            if not zero_cmp:
+                continue
+            found = True
+            others = [x for x in conj if x not in zero_cmp] + [g for (g, s_, _b) in guards_of(fn, c) if not fn.in_range(g, lp['b'], lp['e'])]
+
+            def mentions_fraction(x):
+                for y in fn.subtree(x):
+                    ny = fn.nodes[y]
+                    if ny.get('k') == 'var' and ny.get('d') == prec:
+                        return True
+                    if char_of(fn, y) == '.' and ny.get('k') == 'lit':
+                        return True
+                return False
+            R.check(any(mentions_fraction(x) for x in others), 'N2-zero-trim-needs-fraction', key, fn.loc(c),
+                    'trailing \'0\' characters are stripped without any test that the text has a fractional part (precision > 0 / a \'.\' was '
+                    'written): with precision 0 the integer digits are stripped, double2string(s, 10.0, 0) yields "1", 0.0 reads buffer[-1]')
+        if not found:
+            R.broken('%s: trailing-zero trimming loop not recognised' % fn.full)
+
+
+def backend_rules(fb, R):
+    accessor_rules(fb, R)
+    wkb_rules(fb, R)
+    reset_rules(fb, R)
+    text_rules(fb, R)
+    hex_rules(fb, R)
+    snprintf_rules(fb, R)
+    trim_rules(fb, R)
+
+
+# ================================================================================================ run
 def factory_rules(fb, R):
     fill_rules(fb, R)
     wrapper_rules(fb, R)
@@ -1010,3 +2327,43 @@ def run(ctx):
     for cfg in configs:
         fb = ctx.facts(['geom'], cfg)
         factory_rules(fb, R)
+        backend_rules(fb, R)
+    # instance floors, each confirmed by reading the tree (see the module docstring for what an instance is)
+    R.expect('E1-count-equals-emits', 4)                  # the four fill_* functions
+    R.expect('E2-emits-current-element', 5)               # + add_points
+    R.expect('E3-skip-only-consecutive-duplicates', 13)   # 5 skip-guard + 5 one-emit-per-element + 3 compares-with-last-emitted
+    R.expect('E4-first-element-never-skipped', 3)         # the three duplicate filters
+    R.expect('W1-wrapper-forwards', 4)
+    R.expect('T1-create-protocol', 5)                     # 3 protocols + 2 Way overloads
+    R.expect('D1-direction-and-uniqueness-dispatch', 8)   # 2 geometries x 2 x 2
+    R.expect('D2-reverse-iterators', 2)
+    R.expect('G1-degenerate-threshold', 6)                # 3 thresholds + 3 "rejecting edge throws"
+    R.expect('P1-checked-accessors', 6)                   # 2 projections, 2 Coordinates ctors, lon, lat
+    R.expect('X1-axis-order', 6)                          # 4 WKB encoders + 2 append_to_string overloads
+    R.expect('B1-backpatch-offset-pairing', 6)            # the 6 WKB levels
+    R.expect('B2-backpatch-counter', 6)
+    R.expect('B3-nested-slots-distinct', 2)
+    R.expect('B4-set_size-patches-uint32', 3)
+    R.expect('B5-header-layout', 8)                       # layout, enum table, 5 users, polygon ring count
+    R.expect('B6-start-resets-buffer', 9)                 # 3 back ends x 3 top level starts
+    R.expect('B7-patch-before-handover', 7)               # 3 finishes + 4 hex/binary returns
+    R.expect('S1-text-nesting-grammar', 10)               # 2 formats x (4 geometries + precision member)
+    R.expect('H1-hex-encoding', 1)
+    R.expect('N1-snprintf-length-bounded', 2)
+    R.expect('N2-zero-trim-needs-fraction', 1)
+
+
+def _st_factory(fb, R):
+    factory_rules(fb, R)
+
+
+def _st_backend(fb, R):
+    backend_rules(fb, R)
+
+
+SELFTESTS = [(r, 'c17_geom.cpp', _st_factory) for r in (
+    'E1-count-equals-emits', 'E2-emits-current-element', 'E3-skip-only-consecutive-duplicates', 'W1-wrapper-forwards', 'T1-create-protocol',
+    'D1-direction-and-uniqueness-dispatch', 'D2-reverse-iterators', 'G1-degenerate-threshold')] + [(r, 'c17_geom.cpp', _st_backend) for r in (
+        'P1-checked-accessors', 'X1-axis-order', 'B1-backpatch-offset-pairing', 'B2-backpatch-counter', 'B3-nested-slots-distinct',
+        'B4-set_size-patches-uint32', 'B5-header-layout', 'B6-start-resets-buffer', 'B7-patch-before-handover', 'S1-text-nesting-grammar',
+        'H1-hex-encoding')]
